@@ -256,13 +256,18 @@ func loopback() {
 			lc.r = qCtx.R()
 			rep.Eval(1)
 			// every queried server gets its datagram before the next call changes the rcodes
-			deadline := time.Now().Add(6 * time.Second)
-			for time.Now().Before(deadline) {
+			// (not a verdict: the count is judged after quiescence + sentinel flush)
+			deadline := time.Now().Add(wd("loopback-settle", 6*time.Second))
+			for {
 				tot := 0
 				for _, s := range srvs {
 					tot += len(s.forName(lc.name))
 				}
 				if tot >= n {
+					break
+				}
+				if !time.Now().Before(deadline) {
+					wdExpired("loopback-settle")
 					break
 				}
 				time.Sleep(200 * time.Microsecond)
